@@ -106,10 +106,30 @@ func docLines(doc string) []string {
 	return ls
 }
 
+// whitespaceOnly: the line is whitespace-only, possibly after block-quote
+// markers (`^ {0,3}> ?`, repeatedly) — mirrors C35.whitespaceOnly.
+func whitespaceOnly(l string) bool {
+	for {
+		n := 0
+		for n < len(l) && l[n] == ' ' {
+			n++
+		}
+		if n <= 3 && n < len(l) && l[n] == '>' {
+			l = l[n+1:]
+			if strings.HasPrefix(l, " ") {
+				l = l[1:]
+			}
+			continue
+		}
+		break
+	}
+	return l != "" && strings.Trim(l, " ") == ""
+}
+
 func lineHazards(doc string) bool {
 	ls := docLines(doc)
 	for i, l := range ls {
-		if l != "" && strings.Trim(l, " ") == "" {
+		if whitespaceOnly(l) {
 			return true
 		}
 		if isSetextLike(l) && i > 0 && stripQuoteIndent(ls[i-1]) != "" {
